@@ -45,6 +45,9 @@ type Req struct {
 	// is used verbatim as the request-target instead (must include the query).
 	Path      string
 	RawTarget string
+	// RawSuffix is appended to the serialised path as it is (already percent-encoded), e.g.
+	// "%2F" for a key that ends in an encoded slash.
+	RawSuffix string
 	Query     [][2]string // ordered; a pair with value "\x00" is emitted as a bare key
 	Header    [][2]string
 	Host      string
@@ -131,6 +134,7 @@ func (r *Req) Target() string {
 	if p == "" {
 		p = "/"
 	}
+	p += r.RawSuffix
 	if len(r.Query) == 0 {
 		return p
 	}
